@@ -18,6 +18,23 @@ LABELS_SMALL = ["a", "b", "c"]
 LABELS_WORDS = ["Noun", "Verb", "Adj", "Adv", "Det", "N", "Nouns", "verb"]
 LABELS_NUM = ["1", "2", "3", "5", "10", "12", "20", "100"]
 ANNOTATOR_NAMES = ["alex", "bob", "carl", "dora", "eve"]
+# name sets whose alphabetical order differs from other plausible orders (numeric, case-insensitive, insertion)
+NAME_SETS = [
+    ["alex", "bob", "carl", "dora", "eve"],
+    ["rater_9", "rater_10", "rater_2", "rater_100", "rater_11"],
+    ["annotator_2", "annotator_10", "annotator_1", "annotator_20", "annotator_3"],
+    ["coder7", "coder12", "Coder3", "coder1", "CODER9"],
+    ["Zoe", "adam", "Bob", "carl", "_x"],
+    ["b", "a", "ab", "B", "aa"],
+    ["é", "e", "z", "E", "f"],
+    ["Sampled_annotation 0", "Sampled_annotation 1", "Sampled_annotation 10", "Sampled_annotation 2", "Ref"],
+]
+
+
+def pick_names(rng, n):
+    names = list(rng.choice(NAME_SETS))
+    rng.shuffle(names)
+    return names[:n]
 
 FAMILIES = ["grid", "dyadic", "generic", "nested", "identical", "longoverlap", "touching", "negative",
             "offset", "tiny", "mixeddur", "dense"]
@@ -98,6 +115,8 @@ def gen_continuum(rng, n_annot=None, max_units=4, family=None, labels=None, p_no
             szs = [rng.randint(lo, max_units) for _ in range(n)]
         else:
             szs = list(sizes)
+            if sum(szs) < min_total:
+                raise ValueError("gen_continuum: the sizes given cannot reach min_total")
         if sum(szs) >= min_total:
             break
     ann = {}
